@@ -55,7 +55,7 @@ def enc_g(spec, smart):
             flat = []
             for a in alts:
                 if isinstance(a, dict):      # AnyTokenExcept: one-token alternatives in the iteration order of the set
-                    exp = [[t] for t in terminal_order(spec) if t not in a["ax"]]
+                    exp = [[t] for t in ax_tokens(spec, a["ax"])]
                     ax.append("%s@%d:%d:%s" % (_chk(sym), len(flat), len(exp), ",".join(_chk(x) for x in a["ax"]) or "-"))
                     flat.extend(exp)
                 else:
@@ -81,6 +81,15 @@ def terminal_order(spec):
     tk = _llp()._Tokenizer(tokenizer_str(spec), synonyms=dict(spec["syn"]) or None,
                            keywords={(t, v): t2 for t, v, t2 in spec["kw"]} or None)
     return list(tk.get_all_token_names())
+
+
+def ax_tokens(spec, excl):
+    """the one-token alternatives AnyTokenExcept(*excl) stands for: the SET is the reference's (`terminal_names`), only
+    the order among them is taken from the code (iteration order of a Python set)"""
+    names = terminal_names(spec)
+    order = [t for t in terminal_order(spec) if t in names]
+    order += sorted(names - set(order))
+    return [t for t in order if t not in excl]
 
 
 def dec_g(line):
@@ -488,7 +497,7 @@ def expanded_prods(spec):
             flat = []
             for a in alts:
                 if isinstance(a, dict):
-                    flat.extend([t] for t in terminal_order(spec) if t not in a["ax"])
+                    flat.extend([t] for t in ax_tokens(spec, a["ax"]))
                 else:
                     flat.append([] if a is None else a)
             out.append((sym, flat))
